@@ -372,8 +372,12 @@ func search(prop, tier string, base uint64, cfg tierCfg, workers int, tmp string
 			agg.noShrink = true
 			continue
 		}
-		fmt.Println("HARNESS-ERROR: a worker stopped making progress but the run did not hang when repeated alone;", err, firstLines(out, 10))
-		return agg, 2
+		// not a hang: the run finishes when repeated alone (a slow run on a loaded
+		// machine). The worker was stopped, so the rest of its share was not
+		// explored; that is reported, never turned into a verdict.
+		_ = out
+		fmt.Printf("NOTE: a worker was stopped as a suspected hang, but the run finishes when repeated alone (err=%v); the rest of that worker's share of this batch was not explored\n", err)
+		agg.Stats.Probes["worker_stopped_on_unconfirmed_hang"]++
 	}
 	return agg, 0
 }
